@@ -57,6 +57,7 @@ let rule_out r =
 let exn_out = function
   | IndexSizeErr -> "IndexSizeErr" | HierarchyRequestErr -> "HierarchyRequestErr"
   | NoModificationAllowedErr -> "NoModificationAllowedErr" | NamespaceErr -> "NamespaceErr" | SyntaxErr -> "SyntaxErr"
+  | InvalidModificationErr -> "InvalidModificationErr"
 let result_out = function
   | Ret None -> "RN" | Ret (Some n) -> "R" ^ string_of_int (int_of_nat n)
   | Exc e -> "E" ^ exn_out e | Skip -> "S" | Unmodelled -> "U"
